@@ -117,6 +117,7 @@ def run(prop, tier, seed):
             ops = ops_for(n, L)
             for op in ops:
                 key = (L, n, (op,))
+                if not rep.mine(key): continue
                 msg = run_case(L, n, [op])
                 rep.case(key, True, dict(L=L, n=n, ops=[op]) if rnd.random() < 0.002 else None)
                 if msg: rep.fail(f'L={L}:{classify(msg)}', msg, dict(L=L, n=n, ops=[op]))
@@ -133,6 +134,7 @@ def run(prop, tier, seed):
             if op[0] == 'splice': cur = cur - (op[2] - op[1]) + op[3]
             if op[0] == 'reins': break
         key = (L, n, tuple(hist))
+        if not rep.mine(key): continue
         msg = run_case(L, n, hist)
         rep.case(key, len(hist) > 1, dict(L=L, n=n, ops=hist) if rnd.random() < 0.001 else None)
         if msg: rep.fail(f'L={L}:{classify(msg)}', msg, dict(L=L, n=n, ops=hist))
